@@ -51,7 +51,7 @@ VARIABLES ib, ob, w, x, b, tm, te, sbit, spos,
 (* constant sets of the configurations (a TLC cfg file cannot contain      *)
 (* negative numbers or tuples; the cfg files substitute these by name)     *)
 (***************************************************************************)
-W_quick    == {-8, -2, 1, 7}
+W_quick    == {-8, 1, 7}
 W_thorough == {-8, -3, -2, 1, 5, 7}
 W_replay   == {-2, 1, 7}
 B_layer    == {-9, 0, 4, 60}
@@ -61,8 +61,8 @@ B_nobias   == {-9, 60}
 T_8 == {<<3, 3>>, <<5, 6>>, <<1, 0>>, <<3, 1>>, <<11, 10>>, <<1, 9>>, <<37, 8>>, <<255, 10>>}
 T_6 == {<<3, 3>>, <<5, 6>>, <<3, 1>>, <<11, 10>>, <<37, 8>>, <<255, 10>>}
 T_4 == {<<3, 3>>, <<5, 6>>, <<3, 1>>, <<37, 8>>}
-B_approx_quick    == {-134217728, -2097153, -5, 0, 3, 1048576, 134217720, 134217728}
-B_approx_thorough == B_approx_quick \cup {-1048577, 2097151}
+B_approx_quick    == {-134217728, -2097153, 0, 3, 134217720, 134217728}
+B_approx_thorough == B_approx_quick \cup {-1048577, -5, 1048576, 2097151}
 T_approx_quick    == {<<3, 3>>, <<5, 6>>, <<3, 1>>, <<37, 8>>, <<1, 8>>, <<255, 8>>, <<16, 0>>}
 T_approx_thorough == T_approx_quick \cup {<<1, 0>>, <<129, 8>>, <<5, 0>>}
 Big_quick    == {-1073741823, -16385, -16384, -1, 0, 1, 16383, 16384, 32768, 268435456, 1073741823}
